@@ -12,6 +12,7 @@ for d in sorted(glob.glob(f"{ROOT}/seeded/C*-*")):
     if os.environ.get("SEED_ONLY") and not re.search(os.environ["SEED_ONLY"], name): continue
     if not os.path.isdir(f"{ROOT}/harness/{pid.lower()}"): continue
     meta = json.load(open(f"{d}/meta.json"))
+    if os.environ.get("SEED_STATUS") and not re.search(os.environ["SEED_STATUS"], (meta.get("detection") or {}).get("status", "not-run")): continue
     if meta.get("skip_matrix"):
         det = meta.get("detection", {})
         rows.append((name, det.get("status", "skipped"), ", ".join(det.get("keys", [])[:3]), (meta.get("summary") or "")[:110].replace("\n", " ").replace("|", "/")))
@@ -25,6 +26,9 @@ for d in sorted(glob.glob(f"{ROOT}/seeded/C*-*")):
     keys = re.findall(r"^VIOLATION property=\S+ replay=\S+ key=(\S+)", out, re.M)
     rc = p.returncode
     status = "detected" if rc == 1 and keys else ("does-not-apply" if rc == 3 else ("inconclusive" if rc == 2 else "MISSED"))
+    # the outcome at first contact (before any strengthening prompted by this change) is kept separately
+    if "first_contact" not in meta:
+        meta["first_contact"] = (meta.get("detection") or {}).get("status", status)
     meta["detection"] = {"check": f"./check {pid} --tier quick", "against": rev or "HEAD", "patch": os.path.basename(patch), "status": status, "keys": sorted(set(keys))[:6]}
     json.dump(meta, open(f"{d}/meta.json", "w"), indent=1)
     rows.append((name, status, ", ".join(sorted(set(keys))[:3]), (meta.get("summary") or "")[:110].replace("\n", " ").replace("|", "/")))
@@ -32,11 +36,11 @@ for d in sorted(glob.glob(f"{ROOT}/seeded/C*-*")):
 res = f"{ROOT}/seeded/RESULTS.md"
 # the table is rebuilt from every meta.json (so a partial run keeps the other rows)
 with open(res, "w") as f:
-    f.write("# Seeded changes vs checks (quick tier, VERIF_SEED=1)\n\n| seed | status | violation keys (first 3) | change |\n|---|---|---|---|\n")
+    f.write("# Seeded changes vs checks (quick tier, VERIF_SEED=1)\n\n| seed | status now | at first contact | violation keys (first 3) | change |\n|---|---|---|---|---|\n")
     for d in sorted(glob.glob(f"{ROOT}/seeded/C*-*")):
         name = os.path.basename(d)
         try: meta = json.load(open(f"{d}/meta.json"))
         except Exception: continue
         det = meta.get("detection") or {}
         summ = (meta.get("summary") or meta.get("description") or "")[:110].replace("\n", " ").replace("|", "/")
-        f.write(f"| {name} | {det.get('status', 'not-run')} | {', '.join(det.get('keys', [])[:3])} | {summ} |\n")
+        f.write(f"| {name} | {det.get('status', 'not-run')} | {meta.get('first_contact', det.get('status', ''))} | {', '.join(det.get('keys', [])[:3])} | {summ} |\n")
